@@ -235,8 +235,8 @@ def run_batch(rep, c, wb, data, probe: bool, with_faults: bool):
 
 def run(ctx: Ctx) -> Report:
     total = Report(prop=ID, level="fault_enumeration", rule=RULE)
-    n_main = 64 if ctx.quick else 1504
-    n_probe = 32 if ctx.quick else 320
+    n_main = 128 if ctx.quick else 6000
+    n_probe = 32 if ctx.quick else 640
     shards = 16
     tasks = [(ctx.subseed("main", i), n_main // shards, False) for i in range(shards)]
     tasks += [(ctx.subseed("probe", i), n_probe // shards, True) for i in range(shards)]
